@@ -528,7 +528,7 @@ impl Prop for C20 {
         true
     }
     fn random_cases(tier: Tier) -> u64 {
-        if tier == Tier::Quick { 40_000 } else { 1_000_000 }
+        if tier == Tier::Quick { 400_000 } else { 5_000_000 }
     }
     fn execute(k: &CtorCase, ctx: &mut Ctx) -> Verdict {
         exec(k, ctx)
